@@ -11,7 +11,9 @@ EXPRS = ['1', '2 3 +', '10 3 -', '2 3 * 4 +', '1 2', '1 2 3', '[ 1 2 ]', '[ ]', 
          ': a 1 ; 6 const SIX : b SIX ; : c b a + ; c', '6 const SIX 2 const TWO : m SIX TWO * ; : n m m + ; n',
          ': a 1 ; : b 2 ; 6 const SIX : c 3 ; : d 4 ; 2 const TWO a b c d + + +', ': f 1 ; : f 2 ; : f 3 ; f']
 SEAL = ['vv', 'drop', '1 ! vv', '5 var inner', 'swap', 'dup', 'rdv', 'wrv', 'rdv 1 +', 'rdv print', '1 if rdv then', 'true if wrv then', ': q rdv ; q',
-        '[ rdv ]', 'rdv drop 5']
+        '[ rdv ]', 'rdv drop 5',
+        # the block owns one or two cells and the word needs more: it must not take them from below
+        '1 rot', '1 2 rot', '1 swap', '1 over', '1 drop drop', '1 2 + +', '[ 1 ] swap', '1 2 swap rot', '1 2 rot drop', '"a" 1 rot', '1 dup rot', '1 2 drop rot']
 SEAL_HELPERS = ' : rdv vv ; : wrv 1 ! vv ;'
 PRE = ['', '1', '100 200', '"x"', '7 var vv', '7 var vv vv', '[ 1 ]']
 POST = ['', '1 +', 'dup', 'depth', 'drop', '2', 'print']
@@ -53,6 +55,9 @@ class C11(XsProp):
             if any(s is None for s in srcs):
                 continue
             lits[e] = ' '.join(reversed(srcs))     # last result first
+        # tagged results: there is no literal syntax for a tagged value, the written-out form is the run-time expression itself
+        for e in ['5 ^{ 1 "k" ^}', '"ff" ^hex', 'nil 1 "a" insert-tag', '[ 1 ] ^{ 2 "z" ^}', '1.5 ^{ 1 "k" ^}', '0 ^bin "q" "w" insert-tag']:
+            lits[e] = e
         self.lits = lits
         n = 700 if tier == 'quick' else 12000
         cs = []
@@ -114,7 +119,7 @@ class C11(XsProp):
         # sealing: the block cannot see or change the surroundings
         for i in range(n // 5):
             e = rng.choice(SEAL)
-            pre = rng.choice(['7 var vv%s 1 2', '7 var vv%s', '7 var vv%s 9']) % SEAL_HELPERS
+            pre = rng.choice(['7 var vv%s 1 2', '7 var vv%s', '7 var vv%s 9', '7 var vv%s 1 2 3', '7 var vv%s 4 5 6 7']) % SEAL_HELPERS
             case = ('xs limits 6000 - - | eval %s | clone | eval %s | stack | var 7676 | use 1 | stack | var 7676'
                     % (hexsrc(pre), hexsrc('#( %s #)' % e)))
             cs.append(case)
